@@ -1,8 +1,7 @@
 \* quick: predict on every density-based clustering of every sequence of 1..4 points on {0..3},
-\* every query row on the lattice, its rim and far away; intended behaviour (noise when no
-\* training point is within eps)
+\* every query row on the lattice, its rim and far away; the vote as coded (a winning bucket without votes is noise)
 CONSTANTS W = 4  H = 0  MaxN = 4  EpsSet = {1, 2}  MinPtsSet = {1, 2}
-          Key = "man"  Mode = "intended"
+          Key = "man"  Mode = "guarded"
 SPECIFICATION Spec
 INVARIANT PredictSatisfiesProperty
 INVARIANT TableIsVotes
